@@ -356,6 +356,12 @@ let step st (f : string array) : string list =
           st.s <- s';
           let offs = List.mapi (fun i _ -> " " ^ string_of_z (Z.add before (z_of_int i))) ms in
           [Printf.sprintf "ok %s%s" (string_of_z n) (String.concat "" offs)]))
+  | "pubbig" ->
+    (* a batch with a message above the 64 MiB guard, represented by its size only: Model.log_publish checks
+       existsb msg_too_big before any change of state and answers ETooBig (after Readonly / Closed) *)
+    (match st.s.opened with
+     | None -> [err EClosed]
+     | Some c -> if c.cro then [err EReadonly] else [err ETooBig])
   | "next" | "sync" ->
     (match next_of st with
      | Bad e -> [err e]
@@ -795,6 +801,10 @@ let run_check (path : string) =
            mutated c
          | OErr _ -> mutated c)
       end
+    | ["pubbig"; _] ->
+      (* a failed Publish publishes nothing: the abstract log is unchanged (checked by the scans that follow) *)
+      if c.cro_ then chk "C19" "readonly_rejects_publish" (r = ["err"; "Readonly"]) r
+      else (if not c.tainted then chk "C01" "oversized_batch_rejected" (r = ["err"; "TooBig"]) r; mutated c)
     | ["del"; offs] ->
       if c.cro_ then chk "C19" "readonly_rejects_delete" (r = ["err"; "Readonly"]) r
       else begin
@@ -1174,16 +1184,18 @@ let run_flock (path : string) =
            (match r with FOk -> "ok" | FSkip -> "skip"
                        | FErr c -> "err " ^ (match c with
                            | CLocked -> "Locked" | CReadonly -> "Readonly" | CIndexCorrupted -> "IndexCorrupted"
-                           | CNotExist -> "NotExist" | _ -> "Other")) in
+                           | CNotExist -> "NotExist" | CLogCorrupted -> "LogCorrupted" | _ -> "Other")) in
          (match f with
           | "case" :: _ -> t := ftab0
           | ["prep"; _] -> print_endline "= ok"
           | "o" :: h :: ro :: chk :: _ ->
-            print_endline ("= " ^ step (FOpen (nat_of_int (int_of_string h), ro = "1", chk = "1")))
+            (* Recover (chk = 2) on a read-only handle only checks *)
+            print_endline ("= " ^ step (FOpen (nat_of_int (int_of_string h), ro = "1", chk = "1" || chk = "2")))
           | ["c"; h] -> print_endline ("= " ^ step (FClose (nat_of_int (int_of_string h))))
           | ["p"; h] -> print_endline ("= " ^ step (FPublish (nat_of_int (int_of_string h))))
           | ["d"; h] -> print_endline ("= " ^ step (FDelete (nat_of_int (int_of_string h))))
           | ["corrupt"; b] -> print_endline ("= " ^ step (FCorrupt (b = "1")))
+          | ["tear"; b] -> print_endline ("= " ^ step (FTear (b = "1")))
           | ["rmdir"; b] -> print_endline ("= " ^ step (FRmdir (b = "1")))
           | ["q"; h] ->
             (match fstep !t (FPublish (nat_of_int (int_of_string h))) with
